@@ -364,6 +364,7 @@ func runCheck(id, tier string, seed int, overlay map[string][]byte, writeEvidenc
 			"externs_assumed":           externList,
 			"assumed_contracts":         assumedContracts,
 			"trusted_clauses":           sortedKeys(e.trusted),
+			"axioms":                    e.axiomsUsed,
 			"noise_calls":               sortedKeys(e.noiseCalls),
 			"havocked_calls":            sortedKeys(e.havocked),
 			"bounded_loops":             sortedKeys(e.unrolled),
